@@ -41,7 +41,7 @@ def collect():
         pid, x = key.split('/')
         src = source_dir(pid, x)
         dst = os.path.join(V, 'seeded', pid, x)
-        if not os.path.isdir(src):
+        if not os.path.isdir(src) or not os.path.exists(os.path.join(src, 'patch.diff')) or not os.path.exists(os.path.join(src, 'NOTES.md')):
             continue
         os.makedirs(dst, exist_ok=True)
         patch = os.path.join(REB, pid, x, 'patch.diff')
